@@ -1,5 +1,6 @@
 import Refine.Lemmas.CavityReplace
 import Refine.Lemmas.CavityVisible
+import Refine.Lemmas.CavityGrid
 import Refine.Lemmas.GeomReal
 import Refine.Props.C15
 
@@ -51,7 +52,7 @@ theorem insertFace_chain {α : Type} {φ : Int → Int → Int → G} (hφ : Alt
     (c c' : Cav) (hinv : SlotsInv c.faces) (h : addTets g c cells = (.ok, c')) (hs : c'.state = .unknown) :
     ∃ new, c'.tetList = c.tetList ++ new ∧
       faceSum φ c'.validFaces = faceSum φ c.validFaces + (new.map (tetBd φ g)).sum := by
-  obtain ⟨new, htl, st, _⟩ := addTets_spec hφ g cells c c' hinv h hs
+  obtain ⟨new, htl, st, _, _⟩ := addTets_spec hφ g cells c c' hinv h hs
   refine ⟨new, htl, ?_⟩
   simp only [Cav.validFaces, Slots.valid, ← rowsSum_eq_faceSum]; exact st.sum
 
@@ -115,7 +116,7 @@ theorem cavity_replace_conforming {α : Type} {φ : Int → Int → Int → G} (
     (hsame : c''.faces = c'.faces ∧ c''.tetList = c'.tetList) (hv : VerifyPassed c'') :
     ((newTets c'').map fun t => faceSum φ (tetFaces t)).sum = (c''.tetList.map (tetBd φ g)).sum := by
   have hnd : ∀ f ∈ c''.validFaces, Nondeg f := by
-    obtain ⟨new, _, _, hmem⟩ := addTets_spec hφ g cells _ c' (emptyCav_inv node) h hs
+    obtain ⟨new, _, _, hmem, _⟩ := addTets_spec hφ g cells _ c' (emptyCav_inv node) h hs
     intro f hf
     have hf' : f ∈ c'.validFaces := by simpa [Cav.validFaces, hsame.1] using hf
     rcases hmem f hf' with h0 | h1
@@ -137,6 +138,175 @@ theorem replace_star_two_sided (c : Cav) (hnd : ∀ f ∈ c.validFaces, Nondeg f
     ∀ d ∈ allSides c.validFaces,
       (allSides c.validFaces).count d = 1 ∧ (allSides c.validFaces).count (rev d) = 1 :=
   verify_two_sided c.validFaces hnd (verifyPassed_loop hv)
+
+/-! ## replace at grid level: the mesh keeps its signed boundary -/
+
+/-- the blank chains of the tet and tri stores are consistent (holds for `Grid.create`, preserved by every
+    modelled operation) -/
+structure GridInv {α : Type} (g : Grid α) : Prop where
+  tets : SlotsInv g.tets.slots
+  tris : SlotsInv g.tris.slots
+
+theorem forall₂_imp_mem {A B : Type} {R S : A → B → Prop} {l1 : List A} {l2 : List B}
+    (h : List.Forall₂ R l1 l2) (himp : ∀ a b, a ∈ l1 → R a b → S a b) : List.Forall₂ S l1 l2 := by
+  induction h with
+  | nil => exact List.Forall₂.nil
+  | cons hab _ ih =>
+    exact List.Forall₂.cons (himp _ _ List.mem_cons_self hab)
+      (ih (fun a b ha => himp a b (List.mem_cons_of_mem _ ha)))
+
+/-- **replace_grid_multiset.**  A successful `ref_cavity_replace` whose listed cells are live turns the live tets
+    into `before − listed + newTets` and the live tris into `before − listed + newTris` (as multisets: `rt`, `rs`
+    are the removed cells, looked up in the grid before the call). -/
+theorem replace_grid_multiset {α : Type} (g g' : Grid α) (c c' : Cav) (hinv : GridInv g)
+    (h : replace g c = (.ok, c', g'))
+    (hlt : ∀ cell ∈ c.tetList, ∃ t, g.tets.get? cell = some t)
+    (hls : ∀ cell ∈ c.triList, ∃ t, g.tris.get? cell = some t) :
+    GridInv g' ∧ ∃ rt rs,
+      List.Forall₂ (fun cell t => g.tets.get? cell = some t) c.tetList rt ∧
+      List.Forall₂ (fun cell t => g.tris.get? cell = some t) c.triList rs ∧
+      (rt ++ g'.tets.valid).Perm (newTets c ++ g.tets.valid) ∧
+      (rs ++ g'.tris.valid).Perm (newTris c ++ g.tris.valid) ∧
+      (∀ cell t, g'.tets.get? cell = some t → g.tets.get? cell = some t ∨ t ∈ newTets c) := by
+  obtain ⟨_, _, _, _, g1, g2, g3, g4, acc1, acc2, h1, h2, h3, h4, et, es⟩ := replace_ok g g' c c' h
+  obtain ⟨i1, p1, o1, _, _, _, k1, b1⟩ := addNewTets_spec g g1 (newTets c) hinv.tets h1
+  obtain ⟨i2, p2, o2, _, _, _, k2, _⟩ := addNewTris_spec g1 g2 (newTris c) (by rw [o1]; exact hinv.tris) h2
+  obtain ⟨i3, ⟨rt, f3, p3⟩, o3, _, _, _, b3⟩ := rmTets_spec g2 g3 [] acc1 c.tetList (by rw [o2]; exact i1) h3
+  obtain ⟨i4, ⟨rs, f4, p4⟩, o4, _, _, _, _⟩ := rmTris_spec g3 g4 acc1 acc2 c.triList (by rw [o3]; exact i2) h4
+  refine ⟨⟨by rw [et, o4]; exact i3, by rw [es]; exact i4⟩, rt, rs, ?_, ?_, ?_, ?_, ?_⟩
+  · refine forall₂_imp_mem f3 ?_
+    intro cell t hc ht
+    obtain ⟨t0, ht0⟩ := hlt cell hc
+    have := k1 cell t0 ht0
+    rw [o2] at ht
+    rw [this] at ht
+    rw [ht0, ht]
+  · refine forall₂_imp_mem f4 ?_
+    intro cell t hc ht
+    obtain ⟨t0, ht0⟩ := hls cell hc
+    have := k2 cell t0 (by rw [o1]; exact ht0)
+    rw [o3] at ht
+    rw [this] at ht
+    rw [ht0, ht]
+  · rw [et, o4]
+    exact p3.symm.trans (by rw [o2]; exact p1)
+  · rw [es]
+    exact p4.symm.trans (by rw [o3]; exact p2.trans (by rw [o1]))
+  · intro cell t ht
+    rw [et, o4] at ht
+    have := b3 cell t ht
+    rw [o2] at this
+    exact b1 cell t this
+
+/-- signed boundary of all live tets of a grid -/
+def tetsBd {α : Type} (φ : Int → Int → Int → G) (g : Grid α) : G :=
+  (g.tets.valid.map fun t => faceSum φ (tetFaces t)).sum
+
+/-- `Σ_tets ∂φ − Σ_tris φ(tri)`: the signed boundary chain of the mesh (tris in the orientation of the tet face
+    they close) -/
+def meshBd {α : Type} (φ : Int → Int → Int → G) (g : Grid α) : G :=
+  tetsBd φ g - (g.tris.valid.map fun t => φ t.n0 t.n1 t.n2).sum
+
+/-- grid invariant carried along a history of cavity operations -/
+structure GridOK {α : Type} (g : Grid α) : Prop where
+  inv : GridInv g
+  nondeg : ∀ cell t, g.tets.get? cell = some t → TetNondeg t
+
+/-- the live faces of a cavity built with `add_tet` on a grid of non-degenerate tets are non-degenerate -/
+theorem cavity_faces_nondeg {α : Type} (g : Grid α) (hg : ∀ cell t, g.tets.get? cell = some t → TetNondeg t)
+    (cells : List Int) (node : Int) (c' : Cav)
+    (h : addTets g (emptyCav node) cells = (.ok, c')) (hs : c'.state = .unknown) :
+    ∀ f ∈ c'.validFaces, Nondeg f := by
+  have hφ : Alt (fun _ _ _ => (0 : Int)) := ⟨fun _ _ _ => rfl, fun _ _ _ => by simp⟩
+  obtain ⟨new, _, _, hmem, _⟩ := addTets_spec hφ g cells _ c' (emptyCav_inv node) h hs
+  intro f hf
+  rcases hmem f hf with h0 | h1
+  · simp [emptyCav, Cav.create, Cav.validFaces, Slots.valid, Slots.create, List.reduceOption] at h0
+  · simp only [cellFaces, List.mem_flatMap] at h1
+    obtain ⟨cell, _, hc⟩ := h1
+    cases hget : g.tets.get? cell with
+    | none => rw [hget] at hc; cases hc
+    | some t => rw [hget] at hc; exact tetFaces_nondeg t (hg cell t hget) f hc
+
+theorem removed_sum {α : Type} (φ : Int → Int → Int → G) (g : Grid α) (cells : List Int) (rt : List Tet)
+    (h : List.Forall₂ (fun cell t => g.tets.get? cell = some t) cells rt) :
+    (rt.map fun t => faceSum φ (tetFaces t)).sum = (cells.map (tetBd φ g)).sum := by
+  induction h with
+  | nil => simp
+  | cons hab _ ih => simp only [List.map_cons, List.sum_cons, ih, tetBd, hab]
+
+/-- one cavity operation on tets: build with `add_tet` from an empty cavity, change nothing but the state
+    (`check_visible`), `replace` succeeds -/
+def CavStep {α : Type} (g g' : Grid α) : Prop :=
+  ∃ cells node c1 c2 c2', addTets g (emptyCav node) cells = (.ok, c1) ∧ c1.state = .unknown ∧
+    c2.faces = c1.faces ∧ c2.tetList = c1.tetList ∧ c2.triList = [] ∧ c2.validSegs = [] ∧
+    replace g c2 = (.ok, c2', g')
+
+/-- **replace_mesh_conforming.**  One cavity operation keeps the signed boundary of the tet group, keeps the
+    tris, and keeps the grid invariant: `∂φ M' = ∂φ M` for every alternating `φ`. -/
+theorem replace_mesh_conforming {α : Type} {φ : Int → Int → Int → G} (hφ : Alt φ) (hd : Diag φ)
+    (g g' : Grid α) (hok : GridOK g) (hstep : CavStep g g') :
+    GridOK g' ∧ tetsBd φ g' = tetsBd φ g ∧ g'.tris.valid.Perm g.tris.valid ∧ meshBd φ g' = meshBd φ g := by
+  obtain ⟨cells, node, c1, c2, c2', hadd, hs, hfaces, htl, htri, hseg, hrep⟩ := hstep
+  obtain ⟨hc2, hvis, hvf, _, _⟩ := replace_ok g g' c2 c2' hrep
+  have hv : VerifyPassed c2 := ⟨hvf, by rw [hvis]; decide⟩
+  have hlisted : ∀ cell ∈ c2.tetList, ∃ t, g.tets.get? cell = some t := by
+    obtain ⟨new, hnew, _, _, hval⟩ := addTets_spec hφ g cells _ c1 (emptyCav_inv node) hadd hs
+    intro cell hc
+    rw [htl, hnew] at hc
+    simp only [emptyCav, Cav.create, List.nil_append] at hc
+    exact hval cell hc
+  obtain ⟨hinv', rt, rs, frt, frs, pt, ps, hback⟩ :=
+    replace_grid_multiset g g' c2 c2' hok.inv hrep hlisted (by rw [htri]; simp)
+  have hnd1 := cavity_faces_nondeg g hok.nondeg cells node c1 hadd hs
+  have hnd2 : ∀ f ∈ c2.validFaces, Nondeg f := by
+    intro f hf; exact hnd1 f (by simpa [Cav.validFaces, hfaces] using hf)
+  have hconf := cavity_replace_conforming hφ hd g hok.nondeg cells node c1 c2 hadd hs ⟨hfaces, htl⟩ hv
+  -- the removed tets are the listed cells
+  have hrt := removed_sum φ g c2.tetList rt frt
+  have hsum := (pt.map fun t => faceSum φ (tetFaces t)).sum_eq
+  simp only [List.map_append, List.sum_append] at hsum
+  have htets : tetsBd φ g' = tetsBd φ g := by
+    unfold tetsBd
+    rw [hrt, ← hconf] at hsum
+    exact add_left_cancel hsum
+  have hrs : rs = [] := by rw [htri] at frs; cases frs; rfl
+  have hnt : newTris c2 = [] := by simp [newTris, hseg]
+  have htris : g'.tris.valid.Perm g.tris.valid := by simpa [hrs, hnt] using ps
+  refine ⟨⟨hinv', ?_⟩, htets, htris, ?_⟩
+  · intro cell t ht
+    rcases hback cell t ht with h0 | h0
+    · exact hok.nondeg cell t h0
+    · simp only [newTets, List.mem_filterMap] at h0
+      obtain ⟨f, hf, hft⟩ := h0
+      unfold newTetOf at hft
+      split at hft
+      · cases hft
+      · next hhas =>
+        simp only [Option.some.injEq] at hft; subst hft
+        obtain ⟨h01, h12, h20⟩ := hnd2 f hf
+        simp only [Face.has, Bool.or_eq_true, beq_iff_eq, not_or] at hhas
+        exact ⟨h01, fun e => h20 e.symm, fun e => hhas.1.1 e.symm, h12, fun e => hhas.1.2 e.symm,
+          fun e => hhas.2 e.symm⟩
+  · unfold meshBd
+    rw [htets, (htris.map fun t => φ t.n0 t.n1 t.n2).sum_eq]
+
+/-- a finite history of cavity operations -/
+inductive CavHistory {α : Type} : Grid α → Grid α → Prop
+  | nil (g : Grid α) : CavHistory g g
+  | cons {g g1 g2 : Grid α} : CavStep g g1 → CavHistory g1 g2 → CavHistory g g2
+
+/-- **cavity_history_conforming.**  Any chain of successful cavity replacements preserves the signed boundary
+    chain of the mesh (and the grid invariant), for every alternating `φ` into every abelian group. -/
+theorem cavity_history_conforming {α : Type} {φ : Int → Int → Int → G} (hφ : Alt φ) (hd : Diag φ)
+    (g g' : Grid α) (hok : GridOK g) (hist : CavHistory g g') :
+    GridOK g' ∧ meshBd φ g' = meshBd φ g ∧ g'.tris.valid.Perm g.tris.valid := by
+  induction hist with
+  | nil g => exact ⟨hok, rfl, List.Perm.refl _⟩
+  | cons hstep _ ih =>
+    obtain ⟨hok1, _, htris1, hm1⟩ := replace_mesh_conforming hφ hd _ _ hok hstep
+    obtain ⟨hok2, hm2, htris2⟩ := ih hok1
+    exact ⟨hok2, hm2.trans hm1, htris2.trans htris1⟩
 
 /-! ## volume -/
 section volume
@@ -263,6 +433,34 @@ example : ∀ cell t, exGrid.tets.get? cell = some t → TetNondeg t := by
   have hm := get?_mem_valid exGrid.tets cell t () h
   have hall : ∀ t ∈ exGrid.tets.valid, TetNondeg t := by decide
   exact hall t hm
+
+instance {β : Type} [DecidableEq β] (s : Slots β) : Decidable (SlotsInv s) :=
+  decidable_of_iff (s.blank.Nodup ∧ ∀ i ∈ s.blank, i < s.rows.length ∧ s.rows.getD i none = none)
+    ⟨fun h => ⟨h.1, h.2⟩, fun h => ⟨h.nodup, h.blank⟩⟩
+
+def exCavVisible : Cav := { exCav with state := .visible }
+
+theorem exGrid_ok : GridOK exGrid := by
+  refine ⟨⟨by decide +kernel, by decide +kernel⟩, ?_⟩
+  intro cell t h
+  have hm := get?_mem_valid exGrid.tets cell t () h
+  have hall : ∀ t ∈ exGrid.tets.valid, TetNondeg t := by decide
+  exact hall t hm
+
+/-- hypotheses of `replace_grid_multiset`, `replace_mesh_conforming`, `cavity_history_conforming`: the edge-split
+    cavity above is replaced successfully (3 tets out, 6 tets in) -/
+example : CavStep exGrid (replace exGrid exCavVisible).2.2 ∧
+    (replace exGrid exCavVisible).2.2.tets.valid.length = 6 := by
+  have h1 : (replace exGrid exCavVisible).1 = .ok := by decide
+  refine ⟨⟨[0, 1, 2], 5, exCav, exCavVisible, (replace exGrid exCavVisible).2.1, by decide, by decide, rfl, rfl,
+    by decide, by decide, ?_⟩, by decide⟩
+  rw [← h1]
+
+example : CavHistory exGrid (replace exGrid exCavVisible).2.2 := by
+  have h1 : (replace exGrid exCavVisible).1 = .ok := by decide
+  refine CavHistory.cons ⟨[0, 1, 2], 5, exCav, exCavVisible, (replace exGrid exCavVisible).2.1, by decide,
+    by decide, rfl, rfl, by decide, by decide, ?_⟩ (CavHistory.nil _)
+  rw [← h1]
 
 /-- both outcomes of `insertFace_sum` occur: the reversed face cancels (ok), a rotated copy is `REF_INVALID` -/
 example : (insertFace exCav ⟨4, 3, 0⟩).1 = .ok ∧ (insertFace exCav ⟨4, 3, 0⟩).2.validFaces.length = 5 ∧
